@@ -10,15 +10,15 @@ PROP = dict(
                 "active on the service at that instant (exactly so under the protocol's premise that a version number determines the bytes); a successful poll requested every live name, and a "
                 "name with a handle is always live (F3); the end of a successful poll writes the document of the whole new state once, or nothing when nothing changed, and along every history "
                 "the cache holds (version, bytes) of every name the store yields; if any caller got an error the store is unchanged and nothing was written, and one failed request at any position "
-                "fails the poll for every caller; a later poll against a quiescent service leaves exactly the service's active versions; a Refresh arriving while a poll is in flight issues no "
+                "fails the poll for every caller; every caller has its own context, the leader's governs the requests: a context ending disturbs nothing but its own caller (who gets its context error at once), the leader's context ending before some live name was requested fails the poll for all callers still waiting with the store untouched, and all waiting callers get one verdict, so no joiner is told success by a poll that applied a strict subset; a later poll against a quiescent service leaves exactly the service's active versions; a Refresh arriving while a poll is in flight issues no "
                 "request and gets that poll's result; interval+rand(2*interval/10)-interval/10 is within +/-10% for every interval and draw, and the cadence monitor accepts only a constant such period. "
                 "Tied to the code by timelines of the real Store inside a synctest bubble: scripted service (new versions, activation forwards/backwards, deletion, re-creation, answers with and "
                 "without not-changed), failures (not-found, access-denied, other) at every request position for 1-6 secrets and at random positions for 1-8, service changes / handle creation / "
-                "reads / lookups / explicit Refresh / ticker ticks WHILE a poll is in flight, start-up caches with undeclared names, expiry ages crossed by virtual sleeps; per event the kernel "
-                "compares: the version each request carries and its answer, the request set of each poll, every Refresh result (leader and coalesced callers), every Cache.Write document, every "
+                "reads / lookups / explicit Refresh / ticker ticks / the end of the leader's or a joiner's context WHILE a poll is in flight (systematically: leader cancelled at every request position x 0-2 joiners), start-up caches with undeclared names, expiry ages crossed by virtual sleeps; per event the kernel "
+                "compares: the version each request carries and its answer, the request set of each poll, every caller's result class (nil / own context error / poll error; leader and coalesced callers), every Cache.Write document, every "
                 "handle value, the final flush at Close; plus tick times of the default ticker under virtual time over 48 store instances (12 intervals from 10ns to 1 year)."),
     level_note="Trusted: Coq kernel+VM, testing/synctest scheduler, the scripted StoreClient and its recording; the differential tie is sampled; results of ticker-driven polls are not observable (only their requests, cache writes and later state); Cache.Write never fails in these runs.",
-    rule=("36 systematic cases (k=1..6 secrets x failing request position x 2 error kinds, all secrets changed, then a clean poll) + 300 random timelines (8-24 driver actions; a poll has per-position hooks: "
+    rule=("36 systematic cases (k=1..6 secrets x failing request position x 2 error kinds, all secrets changed, then a clean poll) + 126 systematic cancellation cases (k=1..5 x position x 0-2 joiners x leader while held / joiner / both / leader right after the answer) + 300 random timelines (8-24 driver actions; a poll has per-position hooks: "
           "45% of positions carry 0-3 interleaved actions, 14% a failure, 8% a value answer for an unchanged version) + 48 cadence runs; a timeline is non-trivial if it has a successful poll, a poll "
           "that installed something and (a failed poll or a change during a poll or a coalesced Refresh); distinct by input text"),
     explain="requests (version carried / set per poll), Refresh results, Cache.Write documents or handle values of the real Store differ from the poll model on this timeline, or the default ticker's tick times are not one admissible constant period",
